@@ -28,6 +28,8 @@ func runC11(p *Program, r *Report) {
 	ruleR113(p, r)
 	r.Rule("R11.4", "E3", 3, "validation: a masked column setting is accepted only after ValidateMaskingParams succeeded, which rejects an empty pattern and a negative plaintext length")
 	ruleR114(p, r)
+	r.Rule("R11.5", "E3", 4, "the masked envelope inside a value is found wherever it starts: the inline scanner advances to the found tag, by one byte, or by the replaced envelope's length, so a clear window ending in tag bytes cannot hide the envelope from the masking processor")
+	ruleScanAdvance(p, r, "R11.5")
 }
 
 func ruleR111(p *Program, r *Report) {
